@@ -2119,6 +2119,7 @@ theorem history_exposes_spec (v : Variant) (hv : v.fixDefrag = true) (w : Option
     simp only [KV.store]; exact List.Perm.append_right _ hperm
   exact ((hst.filter _).map key)
 
+/-- without a window a forward pass of the specification only stores (no eviction anywhere) -/
 theorem specStep_none_fwd (s : Spec) (b : List Tok) (ids : List Nat) :
     specStep none s (.fwd b ids) = some (KV.store s (b.zip ids)) := rfl
 
